@@ -493,6 +493,11 @@ func (x *Exec) havocCall(s *State, sig *types.Signature, name string, recv *Val,
 }
 
 func (x *Exec) havocHeap(s *State) {
+	// the unknown code may allocate
+	cur := s.allocPtr()
+	nxt := x.eng.fresh("alloc", sInt)
+	s.pc = s.pc.push(mkCmp("<=", cur, nxt))
+	s.heap["$alloc"] = nxt
 	for _, n := range sortedKeys(s.heap) {
 		if n == "$alloc" || strings.HasPrefix(n, "G$") {
 			continue
@@ -892,14 +897,24 @@ func (x *Exec) applyContract(s *State, ct *Contract, fn *types.Func, sig *types.
 		s.assume(g)
 	}
 	old := s.clone()
-	// frame
+	// frame: the targets of the modifies clause are resolved in the pre-call state
 	if !ct.Pure {
 		if ct.HasMod {
-			for _, m := range ct.Modifies {
-				x.havocTarget(s, pre, m)
+			snapEnv := x.contractEnv(old, old, ct, fn, sig, recv, args, nil)
+			for g, v := range s.ghost {
+				_ = g
+				_ = v
 			}
-		} else if ct.Extern {
-			// extern without modifies: nothing modified
+			for _, m := range ct.Modifies {
+				x.havocTarget(s, snapEnv, m)
+			}
+		}
+		if !ct.Extern || ct.HasMod {
+			// the callee may allocate
+			cur := s.allocPtr()
+			nxt := x.eng.fresh("alloc", sInt)
+			s.pc = s.pc.push(mkCmp("<=", cur, nxt))
+			s.heap["$alloc"] = nxt
 		}
 	}
 	res := x.freshResults(s, sig, name)
@@ -924,6 +939,7 @@ func (x *Exec) applyContract(s *State, ct *Contract, fn *types.Func, sig *types.
 		}
 	}
 	post := x.contractEnv(s, old, ct, fn, sig, recv, args, rl)
+	post.freshBase = old.allocPtr() // isfresh() in the callee's postcondition: allocated during the call
 	for _, en := range ct.Ensures {
 		s.assume(post.evalBool(en))
 	}
@@ -943,8 +959,12 @@ func (x *Exec) havocTarget(s *State, env *SpecEnv, m *SpecExpr) {
 		et := under(b.T).(*types.Slice).Elem()
 		key := typeKey(et)
 		all := false
-		if id, ok := t.Index.(*ast.Ident); ok && id.Name == "__all" {
+		if id, ok := t.Index.(*ast.Ident); ok && (id.Name == "__all" || id.Name == "__allcap") {
 			all = true
+			if id.Name == "__allcap" {
+				// s[*cap]: every element of the backing store within the capacity (append in place)
+				b.Len = b.Cap
+			}
 		}
 		for _, l := range leavesOf(et) {
 			name := "M$" + key + "$" + l.path
